@@ -22,15 +22,20 @@ template <typename T>
     if (to != to) {
         return to; // NaN
     }
+    if (from == to) {
+        return to; // also for zeros of opposite sign
+    }
+    if (from == T(0)) {
+        // smallest subnormal with the sign of to
+        constexpr auto sign = static_cast<U>(U(1) << (sizeof(U) * 8U - 1U));
+        return etl::bit_cast<T>(static_cast<U>((etl::bit_cast<U>(to) & sign) | U(1)));
+    }
+    // sign-magnitude representation: a step away from zero increments the bit pattern
     auto const fromBits = etl::bit_cast<U>(from);
-    auto const toBits   = etl::bit_cast<U>(to);
-    if (toBits == fromBits) {
-        return to;
+    if ((from < to) == (from > T(0))) {
+        return etl::bit_cast<T>(static_cast<U>(fromBits + 1));
     }
-    if (toBits > fromBits) {
-        return etl::bit_cast<T>(fromBits + 1);
-    }
-    return etl::bit_cast<T>(fromBits - 1);
+    return etl::bit_cast<T>(static_cast<U>(fromBits - 1));
 }
 } // namespace detail
 
